@@ -383,6 +383,7 @@ func (cl *Client) Read(packetHandler ReadFn) error {
 		}
 
 		err = packetHandler(cl, pk) // Process inbound packet.
+		verifAt("read.handled", cl)
 		if err != nil {
 			return err
 		}
@@ -528,6 +529,7 @@ func (cl *Client) WritePacket(pk packets.Packet) error {
 		return ErrConnectionClosed
 	}
 
+	verifAt("write.afterClosedCheck", cl)
 	if cl.Net.Conn == nil {
 		return nil
 	}
